@@ -463,18 +463,22 @@ func lookupErrorsAreTheKnownOnes(c *kit.Ctx) {
 			}
 		}
 		if !good {
-			// "return err" where err is known to equal one of the two sentinels
-			for _, f := range kit.FactsAt(r.Block()) {
-				cmp, isCmp := kit.CanonCmp(f.Cond, f.Pol)
-				if !isCmp || cmp.Op != token.EQL {
-					continue
-				}
-				for _, g := range []*ssa.Global{tnf, ecc} {
-					if g != nil && (isGlobalLoad(kit.Strip(cmp.X), g) || isGlobalLoad(kit.Strip(cmp.Y), g) || usesGlobal(cmp.X, g) || usesGlobal(cmp.Y, g)) {
-						good = true
+			// "return err" where err is known to equal one of the two sentinels - on every way the return is
+			// reached (a flag `final := err == TableNotFound || err == ErrClientClosed` has two)
+			good = kit.OnAllWays(r.Block(), func(facts []kit.Fact) bool {
+				for _, f := range facts {
+					cmp, isCmp := kit.CanonCmp(f.Cond, f.Pol)
+					if !isCmp || cmp.Op != token.EQL {
+						continue
+					}
+					for _, g := range []*ssa.Global{tnf, ecc} {
+						if g != nil && (isGlobalLoad(kit.Strip(cmp.X), g) || isGlobalLoad(kit.Strip(cmp.Y), g) || usesGlobal(cmp.X, g) || usesGlobal(cmp.Y, g)) {
+							return true
+						}
 					}
 				}
-			}
+				return false
+			}, 0)
 		}
 		c.Check(good, lr, "lookup-errors-known", r.Pos(), "lookupRegion returns TableNotFound, ErrClientClosed or the context's error", "lookupRegion can return an error other than TableNotFound, ErrClientClosed and the context error (e.g. an OfflineRegionError read from hbase:meta): establishRegion panics on any other error ('unknown error occurred when looking up region'), in a goroutine nobody recovers - a meta row kills the process")
 	})
